@@ -98,16 +98,19 @@ DkgFirstDraws == {Drawn(Range(Seats), IncludedBy(Range(Seats)))}
 \* key generation, attempt a >= 2: retry number a-1 of
 \* EvaluateRetryParticipantsForKeyGeneration excludes an eligible single,
 \* pair or triplet according to where a-1 falls
-RetryNumber == attempt - 1
+\* (parametrised by the attempt number a so that case generation can tabulate
+\* all attempts of one input at once)
 Cls == R!Classes(Seats, need)
-ClassOfRetry ==
-    LET s == Cardinality(Cls.s) p == Cardinality(Cls.p) t == Cardinality(Cls.t) IN
-    IF RetryNumber < s THEN Cls.s
-    ELSE IF RetryNumber < s + p THEN Cls.p
-    ELSE IF RetryNumber < s + p + t THEN Cls.t
+ClassOfRetry(cls, a) ==
+    LET r == a - 1
+        s == Cardinality(cls.s) p == Cardinality(cls.p) t == Cardinality(cls.t) IN
+    IF r < s THEN cls.s
+    ELSE IF r < s + p THEN cls.p
+    ELSE IF r < s + p + t THEN cls.t
     ELSE {}
-DkgRetryDraws ==
-    {Drawn(Range(Seats) \ X, IncludedBy(Range(Seats) \ X)) : X \in ClassOfRetry}
+DkgRetryDrawsAt(cls, a) ==
+    {Drawn(Range(Seats) \ X, IncludedBy(Range(Seats) \ X)) : X \in ClassOfRetry(cls, a)}
+DkgRetryDraws == DkgRetryDrawsAt(Cls, attempt)
 
 \* (kept in the state only to avoid recomputing it for every call)
 PossibleDraws ==
